@@ -294,7 +294,11 @@ def corr_refload(out, model, st, rng, built, mm, n, fmt='xmi'):
                 out.diff(f'load of the edited document raised {type(e).__name__}: {e}', case)
                 continue
             kids = list(res2.contents[0].eGet('kids'))
-            got = [kids.index(b) + 1 for b in kids[xid - 1].eGet('r')]
+            xs = [k for k in kids if k.eClass.name == 'X']
+            if len(xs) != 1 or len(kids) != nb + 1:
+                out.diff(f'edited document loaded with {len(kids)} children, {len(xs)} of class X', case)
+                continue
+            got = [kids.index(b) + 1 for b in xs[0].eGet('r')]
         pre = [b for b in own if b < xid]
         pre.sort()
         post = sorted(b for b in own if b > xid)
@@ -359,6 +363,16 @@ def regression_cases():
     return cases
 
 
+def guarded(out, name, f, *args, **kw):
+    """a correspondence section that cannot even observe the implementation is a difference, and the run goes on"""
+    try:
+        f(*args, **kw)
+    except Exception as e:          # noqa
+        import traceback
+        out.diff(f'correspondence section "{name}" could not be carried out: {type(e).__name__}: {e}',
+                 {'section': name, 'traceback': traceback.format_exc()[-800:]})
+
+
 # ---------------------------------------------------------------- entry points
 def run(ctx, out):
     common.use_repo()
@@ -371,11 +385,11 @@ def run(ctx, out):
     st = {'isspace_code_points': 0, 'split_strings': 0, 'attr_documents': 0, 'ref_documents': 0,
           'refload_documents': 0, 'forms': {}}
     rng = ctx.rng
-    corr_isspace(out, model, st, thorough)
-    corr_split(out, model, st, rng, 4000 if thorough else 600)
-    corr_refs(out, model, st, rng, built, mm, 1500 if thorough else 150)
-    corr_refload(out, model, st, rng, built, mm, 1500 if thorough else 150)
-    corr_attributes(out, model, st, rng, built, mm, t0 + budget * 0.45)
+    guarded(out, 'isspace', corr_isspace, out, model, st, thorough)
+    guarded(out, 'split', corr_split, out, model, st, rng, 4000 if thorough else 600)
+    guarded(out, 'reference lists', corr_refs, out, model, st, rng, built, mm, 1500 if thorough else 150)
+    guarded(out, 'bidirectional ends', corr_refload, out, model, st, rng, built, mm, 1500 if thorough else 150)
+    guarded(out, 'attribute values', corr_attributes, out, model, st, rng, built, mm, t0 + budget * 0.45)
     model.close()
     stats = R.new_stats()
     R.oracle_loop(PROP, 'xmi', ctx, out, max(5, t0 + budget - time.time()), stats, regression_cases())
